@@ -30,7 +30,7 @@ EXHAUSTIVE = {'quick': True, 'thorough': True, 'quick_note': 'all ordered pairs 
 ASSUMPTIONS = ['the Date header (none is emitted by the framework) and object addresses are not part of a response',
                'the objects of the most recent request may stay alive (the application object holds its current request)']
 
-MAXBODY = 200
+MAXBODY = 390
 
 
 class Env(dict):
@@ -57,7 +57,7 @@ class Marker:
 def build_app(track=None):
     import ombott
     from ombott import HTTPResponse, HTTPError
-    app = ombott.Ombott({'max_body_size': MAXBODY, 'max_memfile_size': 64})
+    app = ombott.Ombott({'max_body_size': MAXBODY, 'max_memfile_size': 150})
 
     def note(obj):
         if track is not None:
@@ -136,6 +136,15 @@ def build_app(track=None):
         app.response.headers['X-File'] = m
         return f
 
+    @app.route('/echo', method='POST')
+    def echo():
+        return app.request.body.read()
+
+    @app.route('/cookies')
+    def cookies():
+        rq = app.request
+        return 'cookies=%r' % ((sorted(rq.cookies.items()), rq.get_cookie('sid'), rq.get_cookie('theme')),)
+
     @app.route('/peek')
     def peek():
         # a request without a body has no form fields, whatever was posted before
@@ -211,13 +220,21 @@ def kinds():
         'chunked_urlform': lambda m: dict(method='POST', path='/form', qs='m=' + m, content_type='application/x-www-form-urlencoded', chunked=True, content_length=None,
                                           stream=b'4\r\na=' + m.encode()[:1] + b'x\r\n' + b'%x\r\n' % (len(m) + 4) + m.encode() + b'&b=2\r\n0\r\n\r\n'),
         'peek': lambda m: dict(method='GET', path='/peek', qs='m=' + m),
+        # bodies over the in-memory threshold, of a size that differs between the variants (a longer one before a shorter one)
+        'spilled_echo': lambda m: dict(method='POST', path='/echo', qs='m=' + m, body=(m + '-private-').encode() * (14 + len(m))),
+        # a Cookie header with an illegal name after a legal pair (the whole header is dropped), then well-formed ones
+        'cookies_bad': lambda m: dict(method='GET', path='/cookies', headers={'Cookie': 'sid=' + m + '-secret; b@d=1; later=' + m}),
+        'cookies_ok': lambda m: dict(method='GET', path='/cookies', headers={'Cookie': 'theme=' + m}),
+        # one field name three times in a form upload
+        'form_repeated': lambda m: dict(method='POST', path='/form', content_type='multipart/form-data; boundary=B',
+                                        body=''.join('--B\r\nContent-Disposition: form-data; name="a"\r\n\r\n' + m + str(i) + '\r\n' for i in range(3)).encode() + b'--B--\r\n'),
     }
     return K
 
 
 VARIANTS = ['A1', 'B22xx']      # different lengths: pages that embed the URL differ in size
 SUCCESS = {'ok', 'plain', 'raise', 'head', 'gen', 'form', 'urlform', 'signed', 'goodjson', 'gen_cookie', 'file', 'file_wrapped', 'file_wrapped_head', 'session', 'ok_http10',
-           'chunked_urlform', 'peek'}
+           'chunked_urlform', 'peek', 'spilled_echo', 'cookies_bad', 'cookies_ok', 'form_repeated'}
 SHARED_ERR = {'badchunk', 'badmultipart', 'oversized', 'noname_part', 'badjson_json', 'badchunk_json', 'oversized_json', 'cutmp_in_closing_delimiter', 'cutmp_in_first_delimiter'}
 
 
